@@ -138,96 +138,6 @@ func firstLines(s string, n int) string {
 
 const maxScriptBytes = 4 << 20
 
-// solveObligation decides one obligation (with retry and optional case split).
-func solveObligation(fr *FuncResult, o *Obligation, timeoutS int, thorough bool) {
-	if o.Status != "" {
-		return
-	}
-	c := fr.Ctx
-	x := fr.Exec
-	extra := x.strLitFacts()
-	build := func(more ...*Term) Script {
-		as := append(append([]*Term{}, extra...), o.Assumptions...)
-		as = append(as, more...)
-		var vals []*Term
-		if !o.ExpectSat {
-			vals = o.Values
-		}
-		return c.BuildScript(as, o.Goal, vals, ScriptOpts{Opaque: o.Opaque})
-	}
-	sc := build()
-	o.Script = len(sc.Text)
-	if len(sc.Text) > maxScriptBytes {
-		o.Status = "toolarge"
-		o.Model = fmt.Sprintf("script of %d bytes exceeds the cap of %d", len(sc.Text), maxScriptBytes)
-		return
-	}
-	if os.Getenv("GOVC_DUMP") != "" {
-		os.MkdirAll(os.Getenv("GOVC_DUMP"), 0o755)
-		os.WriteFile(filepath.Join(os.Getenv("GOVC_DUMP"), sanitize(o.Name)+".smt2"), []byte(sc.Text), 0o644)
-	}
-	if o.ExpectSat {
-		t := 3
-		r := runPortfolio(sc.Text, t, false)
-		o.Status, o.Backend, o.Seconds = r.Status, r.Backend, r.Seconds
-		if r.Status == "error" {
-			o.Model = r.Output
-		}
-		return
-	}
-	if o.Timeout > 0 {
-		timeoutS = o.Timeout
-	}
-	r := runPortfolio(sc.Text, timeoutS, false)
-	o.Seconds = r.Seconds
-	if r.Status == "unknown" || r.Status == "timeout" {
-		// retry once with a doubled limit (keeps solver noise out)
-		o.Retries++
-		r2 := runPortfolio(sc.Text, 2*timeoutS, false)
-		o.Seconds += r2.Seconds
-		if r2.Status == "sat" || r2.Status == "unsat" {
-			r = r2
-		}
-	}
-	if (r.Status == "unknown" || r.Status == "timeout") && len(o.Split) > 1 {
-		// case split over the return sites
-		all := true
-		var secs float64
-		backends := map[string]bool{}
-		for _, cond := range o.Split {
-			s2 := build(cond)
-			rr := runPortfolio(s2.Text, timeoutS, false)
-			secs += rr.Seconds
-			if rr.Status == "sat" {
-				r = rr
-				all = false
-				break
-			}
-			if rr.Status != "unsat" {
-				all = false
-				r = rr
-				break
-			}
-			backends[rr.Backend] = true
-		}
-		o.Seconds += secs
-		if all {
-			var bs []string
-			for b := range backends {
-				bs = append(bs, b)
-			}
-			o.Status, o.Backend = "unsat", strings.Join(bs, "+")+" (split)"
-			return
-		}
-	}
-	o.Status, o.Backend = r.Status, r.Backend
-	if r.Status == "sat" {
-		o.Model = r.Output
-	} else if r.Status != "unsat" {
-		o.Model = r.Output
-	}
-}
-
 // solveAll runs the obligations of several function results with bounded parallelism.
 func solveAll(frs []*FuncResult, timeoutS int, thorough bool, par int) {
 	type job struct {
@@ -295,6 +205,17 @@ func solveObligationLocked(mu *sync.Mutex, fr *FuncResult, o *Obligation, timeou
 		return c.BuildScript(as, o.Goal, vals, ScriptOpts{Opaque: o.Opaque})
 	}
 	sc := build()
+	// cone of influence: a slice of the assumptions that share symbols with the goal (transitively).
+	// Dropping assumptions only weakens them, so `unsat` on the slice is a proof; any other answer
+	// on the slice is ignored and the full script decides.
+	var sliced *Script
+	if !o.ExpectSat && len(o.Assumptions) > 12 {
+		as := append(append([]*Term{}, extra...), o.Assumptions...)
+		if sl := coneOfInfluence(as, o.Goal); len(sl) < len(as)*3/4 {
+			s2 := c.BuildScript(sl, o.Goal, nil, ScriptOpts{Opaque: o.Opaque})
+			sliced = &s2
+		}
+	}
 	var splitScripts []Script
 	for _, cond := range o.Split {
 		if len(o.Split) > 1 {
@@ -325,8 +246,16 @@ func solveObligationLocked(mu *sync.Mutex, fr *FuncResult, o *Obligation, timeou
 	if o.Timeout > 0 {
 		timeoutS = o.Timeout
 	}
+	if sliced != nil {
+		rs := runPortfolio(sliced.Text, timeoutS, false)
+		o.Seconds += rs.Seconds
+		if rs.Status == "unsat" {
+			o.Status, o.Backend = "unsat", rs.Backend+" (sliced)"
+			return
+		}
+	}
 	r := runPortfolio(sc.Text, timeoutS, false)
-	o.Seconds = r.Seconds
+	o.Seconds += r.Seconds
 	if r.Status != "sat" && r.Status != "unsat" && r.Status != "error" {
 		o.Retries++
 		r2 := runPortfolio(sc.Text, 2*timeoutS, false)
@@ -361,4 +290,87 @@ func solveObligationLocked(mu *sync.Mutex, fr *FuncResult, o *Obligation, timeou
 	if r.Status != "unsat" {
 		o.Model = r.Output
 	}
+}
+
+// coneOfInfluence: assumptions connected to the goal through shared free symbols (constants and
+// uninterpreted/defined functions). Allocation bookkeeping symbols are hubs shared by almost
+// every fact and do not connect by themselves.
+func coneOfInfluence(as []*Term, goal *Term) []*Term {
+	hub := func(name string) bool {
+		return strings.Contains(name, "alloc") || strings.Contains(name, "ghost.brk") || strings.Contains(name, "_brk!")
+	}
+	symCache := map[int]map[string]bool{}
+	var symsOf func(t *Term) map[string]bool
+	symsOf = func(t *Term) map[string]bool {
+		if m, ok := symCache[t.id]; ok {
+			return m
+		}
+		m := map[string]bool{}
+		seen := map[int]bool{}
+		var walk func(x *Term)
+		walk = func(x *Term) {
+			if seen[x.id] {
+				return
+			}
+			seen[x.id] = true
+			switch x.kind {
+			case kConst:
+				if !hub(x.op) {
+					m[x.op] = true
+				}
+			case kApp:
+				if strings.HasPrefix(x.op, "spec_") || strings.HasPrefix(x.op, "uf_") || strings.HasPrefix(x.op, "ghost_") || strings.HasPrefix(x.op, "fnvar_") || strings.HasPrefix(x.op, "str_") || strings.HasPrefix(x.op, "elemref") || strings.HasPrefix(x.op, "maplen") || strings.HasPrefix(x.op, "umul") {
+					m[x.op] = true
+				}
+			}
+			for _, a := range x.args {
+				walk(a)
+			}
+		}
+		walk(t)
+		symCache[t.id] = m
+		return m
+	}
+	rel := map[string]bool{}
+	for k := range symsOf(goal) {
+		rel[k] = true
+	}
+	in := make([]bool, len(as))
+	// the path condition (last assumption) is always kept
+	if n := len(as); n > 0 {
+		in[n-1] = true
+		for k := range symsOf(as[n-1]) {
+			rel[k] = true
+		}
+	}
+	for changed := true; changed; {
+		changed = false
+		for i, a := range as {
+			if in[i] {
+				continue
+			}
+			sy := symsOf(a)
+			hit := false
+			for k := range sy {
+				if rel[k] {
+					hit = true
+					break
+				}
+			}
+			if hit {
+				in[i] = true
+				changed = true
+				for k := range sy {
+					rel[k] = true
+				}
+			}
+		}
+	}
+	var out []*Term
+	for i, a := range as {
+		if in[i] {
+			out = append(out, a)
+		}
+	}
+	return out
 }
